@@ -12,21 +12,21 @@ import (
 // violations to known finding KF-C01-1 (visited set shared by concurrently
 // evaluated sub-checks): it implements path-local cycle detection — the child
 // context carries a private copy of the ancestors' set plus the child itself,
-// and "visited" means "is an ancestor on this path".
+// and "visited" means "is an ancestor on this path". Self-contained on purpose
+// (own context key, own set): it must keep compiling when the package's own
+// visited-set code is refactored.
 func VerifPathLocal(ctx context.Context, current relationtuple.Subject) (context.Context, bool) {
 	id := current.UniqueID().String()
-	n := newStringSet()
-	if set, ok := ctx.Value(visitedMapKey).(*stringSet); ok {
-		set.l.Lock()
-		_, found := set.m[id]
-		for k := range set.m {
-			n.m[k] = struct{}{}
-		}
-		set.l.Unlock()
-		if found {
-			return ctx, true
-		}
+	anc, _ := ctx.Value(verifPathKey{}).(map[string]struct{})
+	if _, found := anc[id]; found {
+		return ctx, true
 	}
-	n.m[id] = struct{}{}
-	return context.WithValue(ctx, visitedMapKey, n), false
+	n := make(map[string]struct{}, len(anc)+1)
+	for k := range anc {
+		n[k] = struct{}{}
+	}
+	n[id] = struct{}{}
+	return context.WithValue(ctx, verifPathKey{}, n), false
 }
+
+type verifPathKey struct{}
